@@ -12,6 +12,11 @@ used = []
 for m in sorted(glob.glob('/verif/seeded/*/meta.json')):
     mm = json.load(open(m))
     used.append(f"- {mm.get('files')}: {str(mm.get('summary',''))[:160]}")
+if int(variant) >= 4:
+    t += ("\n\nFor this variant prefer one of: (a) TWO cooperating edits in different functions/files that each look harmless alone; "
+          "(b) a defect that needs a MULTI-STEP history (state left behind by an earlier call: caches, counters, interned objects, the "
+          "interpretation stack, mutated defaults); (c) a defect in a rarely used code path reachable only through a less common public "
+          "entry point (a different module than earlier seeds: look beyond the anchor files, at their callers and helpers).\n")
 t += "\n\nSites ALREADY USED by earlier seeded changes (for any property) — choose a DIFFERENT function and mechanism:\n" + "\n".join(used) + "\n"
 open(f'/tmp/seedprompt_{pid}_{variant}.txt','w').write(t)
 print(f'/tmp/seedprompt_{pid}_{variant}.txt')
